@@ -148,7 +148,7 @@ func runC15(tier string, _ []string) int {
 				}
 				seen[p.Type+"/"+kk] = true
 				if r.Chance(0.15) {
-					p.Tombstone = 1
+					p.Tombstone = []int{1, 1, 2, 3, 4}[r.Intn(5)] // deleted, or deleted and set again: the count is part of the point
 				}
 				usedT[t.Class], usedV[v.Class] = true, true
 				n.Points = append(n.Points, p)
